@@ -8,6 +8,7 @@ import (
 	"encoding/xml"
 	"fmt"
 	"math/rand"
+	"net/http"
 	"net/http/httptest"
 	"os"
 	"sort"
@@ -28,6 +29,18 @@ type negoCase struct {
 	// PreCT != "": a Content-Type is already on the response when the entity is written (a filter's default, or a
 	// representation the handler abandoned)
 	PreCT string `json:"preCT"`
+	// Mw: a net/http middleware that wraps the ResponseWriter (a status recorder) sits in front of the route
+	Mw bool `json:"mw"`
+}
+
+type negoStatusWriter struct {
+	http.ResponseWriter
+	status int
+}
+
+func (w *negoStatusWriter) WriteHeader(st int) {
+	w.status = st
+	w.ResponseWriter.WriteHeader(st)
 }
 
 type negoPlan struct {
@@ -61,31 +74,49 @@ func codecOf(ct string) string {
 func runNegoCase(tw *traceWriter, c negoCase, registered []string, reps int) {
 	restful.DefaultResponseContentType(c.Def)
 	defer restful.DefaultResponseContentType("")
+	// one route and one container serve every Accept header of the case: what an earlier request preferred must
+	// not influence a later one
+	ran := 0
+	ws := new(restful.WebService).Path("/n")
+	ws.Route(ws.GET("/e").Produces(c.Produces...).To(func(req *restful.Request, resp *restful.Response) {
+		ran++
+		if c.Compact {
+			resp.PrettyPrint(false)
+		}
+		if c.PreCT != "" {
+			resp.Header().Set("Content-Type", c.PreCT)
+		}
+		resp.WriteEntity(negoEntity{A: "x", N: 7})
+	}))
+	cont := restful.NewContainer()
+	if c.Mw {
+		cont.Filter(restful.HttpMiddlewareHandlerToFilter(func(next http.Handler) http.Handler {
+			return http.HandlerFunc(func(w http.ResponseWriter, r *http.Request) {
+				next.ServeHTTP(&negoStatusWriter{ResponseWriter: w}, r)
+			})
+		}))
+	}
+	cont.Add(ws)
 	for ai, acc := range c.Accs {
 		acc2 := ""
 		if ai < len(c.Accs2) {
 			acc2 = c.Accs2[ai]
 		}
-		ran := 0
-		ws := new(restful.WebService).Path("/n")
-		ws.Route(ws.GET("/e").Produces(c.Produces...).To(func(req *restful.Request, resp *restful.Response) {
-			ran++
-			if c.Compact {
-				resp.PrettyPrint(false)
-			}
-			if c.PreCT != "" {
-				resp.Header().Set("Content-Type", c.PreCT)
-			}
-			resp.WriteEntity(negoEntity{A: "x", N: 7})
-		}))
-		cont := restful.NewContainer()
-		cont.Add(ws)
 		cts := map[string]bool{}
 		sts := map[int]bool{}
 		dec := true
 		panicked := false
 		totalRan := 0
 		for i := 0; i < reps; i++ {
+			if i > 0 && len(c.Accs) > 1 {
+				// between two repetitions the route serves a request with another header of the case (not judged here)
+				if hd, err := buildRequest("GET", "/n/e", [][2]string{{"Accept", c.Accs[(ai+i)%len(c.Accs)]}}, nil, false); err == nil {
+					func() {
+						defer func() { recover() }()
+						cont.Dispatch(httptest.NewRecorder(), hd)
+					}()
+				}
+			}
 			ran = 0
 			hr, err := buildRequest("GET", "/n/e", [][2]string{{"Accept", acc}, {"Accept", acc2}}, nil, false)
 			if err != nil {
@@ -141,7 +172,7 @@ func runNegoCase(tw *traceWriter, c negoCase, registered []string, reps int) {
 			r = 1
 		}
 		tw.emit(map[string]interface{}{"e": "nego", "produces": c.Produces, "registered": registered, "def": c.Def,
-			"acc": acc, "acc2": acc2, "ran": r, "sts": stl, "cts": ctl, "dec": dec, "panic": panicked, "compact": c.Compact, "preCT": c.PreCT})
+			"acc": acc, "acc2": acc2, "ran": r, "sts": stl, "cts": ctl, "dec": dec, "panic": panicked, "compact": c.Compact, "preCT": c.PreCT, "mw": c.Mw, "ctx": c.Accs})
 	}
 }
 
@@ -216,7 +247,7 @@ func runNego(planPath, outPath string, seed int64) {
 				prod = append(prod, pool[r.Intn(2)])
 			}
 		}
-		c := negoCase{Produces: prod, Def: pick(r, []string{"", "", "", restful.MIME_JSON, restful.MIME_XML}), Compact: r.Intn(3) == 0, PreCT: pick(r, []string{"", "", "", "text/csv", "text/plain; charset=utf-8"})}
+		c := negoCase{Produces: prod, Def: pick(r, []string{"", "", "", restful.MIME_JSON, restful.MIME_XML}), Compact: r.Intn(3) == 0, Mw: r.Intn(3) == 0, PreCT: pick(r, []string{"", "", "", "text/csv", "text/plain; charset=utf-8"})}
 		if all {
 			c.Registered = pool
 		} else {
